@@ -170,7 +170,7 @@ def finish(pid, tier, seed, mod, results, harness_errors, wall):
             if k is not None:
                 known_hits.setdefault(k['id'], []).append(r['seed'])
             else:
-                v['params'] = r['params']
+                v['params'] = v.get('replay_params') or r['params']
                 viols.append(v)
     # report
     os.makedirs(os.path.join(VERIF, 'replays'), exist_ok=True)
@@ -204,7 +204,8 @@ def finish(pid, tier, seed, mod, results, harness_errors, wall):
               f'(matched {len(seeds)} runs, e.g. seed {seeds[0]})')
     for ln in lines:
         print(ln)
-    n_ok = len([r for r in results if not r.get('error')])
+    n_ok = sum(r.get('evaluations', 1) for r in results
+               if not r.get('error'))
     evid = {
         'property_id': pid,
         'tier': tier,
